@@ -400,6 +400,7 @@ class Lattice:
         rec = Recorder(self, cap, base)
         ret = dict(base, ev="return", cap=cap, exc="", ongrid=True, result=[0, 0], steps=[])
         res = None
+        extra_env = None
         with warnings.catch_warnings():
             warnings.simplefilter("ignore")
             with np.errstate(all="ignore"):
@@ -440,6 +441,8 @@ class Lattice:
             U.put_value(ret, "result", v)
             if v is not None and not np.isfinite(complex(v)):
                 ret["degenerate"] = True
+            if "around" in cfg and hasattr(res, "tensor_map"):
+                extra_env = around_observation(self, cfg, rec, res, ret, base, cap)
         if ret.get("degenerate"):
             # the scheme produced non-finite numbers (an exactly singular bond met a pseudo-inverse with cutoff=0):
             # numerically degenerate input, not judged (counted)
@@ -448,12 +451,84 @@ class Lattice:
                 r["degenerate"] = True
         self.recs += rec.events
         self.recs.append(ret)
+        if extra_env is not None:
+            if ret.get("degenerate"):
+                extra_env["degenerate"] = True
+            self.recs.append(extra_env)
         return res, ret, base
 
     def finish(self):
         for k, r in enumerate(self.recs):
             r["seq"] = k
         return self.recs
+
+
+# =============================================================================== contraction around a region
+def around_observation(lat, cfg, rec, res, ret, base, cap):
+    """what `contract_boundary(around=...)` / `contract_ctmrg(around=...)` returned: where every boundary stopped (from the
+    steps that were taken), whether the tensors of the region are the original ones, and the environment (everything but
+    the region's tensors) closed with the ORIGINAL region tensors"""
+    geo = lat.geo
+    pts = [tuple(x) for x in cfg["around"]]
+    t = [min(x[0] for x in pts), max(x[0] for x in pts), min(x[1] for x in pts), max(x[1] for x in pts)]
+    sq = cfg.get("sequence")
+    sides = list(SIDES_2D) if sq is None else U_seq(sq)
+    nst = [rec.steps.count(d) for d in SIDES_2D]
+    pos = [nst[0], lat.Lx - 1 - nst[1], nst[2], lat.Ly - 1 - nst[3]]
+    ret["hug"] = {"sides": sides, "pos": pos, "t": t, "nst": nst}
+    region = {geo.sid(i, j) for i in range(t[0], t[1] + 1) for j in range(t[2], t[3] + 1)}
+    orig = {}
+    for tt in lat.tn.tensors:
+        ss = geo.sites_of_tags(tt.tags)
+        if ss <= region:
+            orig.setdefault(frozenset(ss), []).append(tt)
+    intact = True
+    relabelled = False
+    env_tids = []
+    for tid, tt in res.tensor_map.items():
+        ss = geo.sites_of_tags(tt.tags)
+        if len(ss) == 1 and ss <= region:
+            cands = orig.get(frozenset(ss), [])
+            if not any(tuple(o.inds) == tuple(tt.inds) and o.shape == tt.shape and np.array_equal(np.asarray(o.data), np.asarray(tt.data)) for o in cands):
+                intact = False
+            if not any(set(o.inds) == set(tt.inds) for o in cands):
+                relabelled = True
+        else:
+            env_tids.append(tid)
+    found = {frozenset(geo.sites_of_tags(tt.tags)) for tt in res.tensors}
+    intact = intact and all(frozenset({sid}) in found for sid in region)
+    ret["target_intact"] = bool(intact)
+    # the environment, closed with the original tensors of the region
+    r = dict(base, ev="env", cap=cap, exc="", ongrid=True, closedval=[0, 0], dangling=0, cover=[], bonds=[], kind="plaq",
+             i0=t[0], j0=t[2], xb=t[1] - t[0] + 1, yb=t[3] - t[2] + 1, side="", idx=0, final=False, dangling_pos=False, dense_eq=False)
+    cover = []
+    for tid in env_tids:
+        tt = res.tensor_map[tid]
+        layers = [1] if lat.nl == 1 else [q for q, g in ((1, "KET"), (2, "BRA")) if g in tt.tags]
+        for sid in sorted(geo.sites_of_tags(tt.tags)):
+            for q in layers:
+                cover.append((sid - 1) * lat.nl + q)
+    r["cover"] = sorted(cover)
+    allt = [(tuple(res.tensor_map[k].inds), np.asarray(res.tensor_map[k].data)) for k in env_tids]
+    allt += [(tuple(o.inds), np.asarray(o.data)) for os_ in orig.values() for o in os_]
+    present = all(frozenset({sid}) in found for sid in region)
+    if present and not relabelled and not intact:
+        # the region's tensors are there with their labels but were compressed against the boundary (compress_late=False
+        # compresses the bonds to every neighbour when they exceed the cap): the original tensors no longer fit; nothing
+        # to close - and if the run counts as untruncated the record fails EnvConsistent (ongrid is False)
+        r["ongrid"] = False
+        return r
+    try:
+        v = U.contract_plain(allt)
+    except Exception:  # noqa  (labels that no longer match: the environment does not close)
+        v = ((None,), None)
+    if isinstance(v, tuple):
+        r["dangling"] = len(v[0])
+        r["dangling_pos"] = True
+        r["ongrid"] = False
+    else:
+        U.put_value(r, "closedval", v * 10.0 ** float(getattr(res, "exponent", 0.0) or 0.0))
+    return r
 
 
 # =============================================================================== environments
@@ -660,22 +735,60 @@ def U_seq(sq):
     return list(sq)
 
 
-def around_jobs_2d(lat, rng, n):
+AROUND_SEQS = [None, "btlr", "rltb", "lrbt", "tblr", "rtlb", "rl", "bt", "rb", "lt", "r", "trl", ("ymax", "xmin", "xmax")]
+
+
+def around_jobs_2d(lat, rng, n, modes=None):
+    """contract_boundary / contract_ctmrg around a region, untruncated: single sites off the diagonal, rectangles, every kind
+    of sequence.  Deterministic part: one site with row index > column index and one with row index < column index, as far
+    inside the lattice as possible, from the default and from a full sequence."""
     jobs = []
-    if any(lat.cyc):
+    if any(lat.cyc) or n <= 0:
         return jobs
-    for _ in range(n):
-        i, j = rng.randrange(lat.Lx), rng.randrange(lat.Ly)
-        around = [(i, j)]
-        if rng.random() < 0.4 and i + 1 < lat.Lx:
-            around.append((i + 1, j))
-        mode = rng.choice(MODES_2D_CORE * 3 + ["dm", "zipup", "direct", "projector", "local-early"])
-        cfg = {"mode": mode, "around": around, "sequence": rng.choice([None, "btlr", "rltb", "lrbt"])}
+    Lx, Ly = lat.Lx, lat.Ly
+    fixed = []
+    a = (max(0, Lx - 2), min(1, Ly - 1))          # row index > column index where the lattice allows
+    b = (min(1, Lx - 1), max(0, Ly - 2))          # row index < column index
+    for pt in (a, b):
+        if pt[0] != pt[1]:
+            fixed += [([pt], None), ([pt], "btlr")]
+    regions = list(fixed)
+    while len(regions) < n:
+        i, j = rng.randrange(Lx), rng.randrange(Ly)
+        pts = [(i, j)]
+        r = rng.random()
+        if r < 0.25 and i + 1 < Lx:
+            pts.append((i + 1, j))
+        elif r < 0.5 and j + 1 < Ly:
+            pts.append((i, j + 1))
+        elif r < 0.6 and i + 1 < Lx and j + 1 < Ly:
+            pts.append((i + 1, j + 1))
+        regions.append((pts, rng.choice(AROUND_SEQS)))
+    for pts, sq in regions[:max(n, len(fixed))]:
+        what = "ctmrg" if rng.random() < 0.2 else "boundary"
+        mode = rng.choice(modes or (MODES_2D_CORE * 3 + ["dm", "zipup", "direct", "projector", "local-early"]))
+        cfg = {"mode": "projector" if what == "ctmrg" else mode, "around": pts, "sequence": sq, "what": what}
 
         def call(rec, cap, cfg=cfg):
+            if cfg["what"] == "ctmrg":
+                return lat.tn.contract_ctmrg(max_bond=cap, cutoff=0.0, around=cfg["around"], sequence=cfg["sequence"])
             return lat.tn.contract_boundary(max_bond=cap, cutoff=0.0, mode=eff_mode(rec, cfg["mode"], "mps"), around=cfg["around"], sequence=cfg["sequence"])
-        jobs.append(("contract_boundary(around)", cfg, call, "tn"))
+        jobs.append(("contract_%s(around)" % what, cfg, call, "tn"))
     return jobs
+
+
+def run_around(lat, rng, jobs, stats):
+    """`around` runs are made untruncated (the cap is the exact bond size), sometimes also truncating"""
+    for scheme, cfg, call, want in jobs:
+        need = dry_need(lat, call)
+        if need is None:
+            lat.run(scheme, cfg, min(lat.ubound, 64), call, want)
+            stats["raised"] = stats.get("raised", 0) + 1
+            continue
+        lat.run(scheme, cfg, max(need, 1), call, want)
+        if need > 1 and rng.random() < 0.25:
+            lat.run(scheme, cfg, need - 1, call, want)
+        stats[scheme] = stats.get(scheme, 0) + 1
 
 
 def compressed_jobs(lat, rng, n):
@@ -1065,6 +1178,15 @@ def make_lattices(rng, tier):
         Lx, Ly = rng.choice([(4, 2), (2, 4), (4, 3), (3, 4)])
         hb, vb = grid(Lx, Ly, [2, 2, 1, 3] if Lx * Ly <= 8 else [2, 2, 1, 1])
         out.append(("2d", dict(Lx=Lx, Ly=Ly, hb=hb, vb=vb, cplx=not rep % 2), dict(boundary=20 if q else 60, around=3, env=5 if q else 14, comp=3, grid=1, plaq=7 if q else 12)))
+        # a lattice wide enough for a region strictly inside (only the loop over the sides matters here: most bonds have
+        # size one so that TLC's exact value stays cheap; SVD based modes, rank deficient bonds are harmless for them)
+        Lx, Ly = rng.choice([(4, 4), (5, 4)])
+        while True:
+            hb = [rsizes(rng, Ly, [1, 1, 1, 2]) for _ in range(Lx)]
+            vb = [rsizes(rng, Ly, [1, 1, 1, 2]) for _ in range(Lx)]
+            if U.dims_budget([d for row in hb for d in row[:-1]] + [d for row in vb[:-1] for d in row], 1024):
+                break
+        out.append(("2d", dict(Lx=Lx, Ly=Ly, hb=hb, vb=vb, cplx=bool(rep % 2)), dict(around=10 if q else 24, around_modes=["mps", "mps", "direct", "zipup"])))
         cyc = rng.choice([(True, False), (False, True), (True, True)])
         Lx, Ly = (3, 3)
         hb, vb = grid(Lx, Ly, [2, 1, 1] if cyc == (True, True) else [2, 2, 1], cyc=cyc)
@@ -1135,7 +1257,7 @@ def run(ctx):
         kinds[kind] = kinds.get(kind, 0) + 1
         if kind in ("2d", "layered", "peps"):
             run_jobs(lat, rng, boundary_jobs_2d(lat, rng, nj.get("boundary", 0)), stats)
-            run_jobs(lat, rng, around_jobs_2d(lat, rng, nj.get("around", 0)), stats)
+            run_around(lat, rng, around_jobs_2d(lat, rng, nj.get("around", 0), modes=nj.get("around_modes")), stats)
             env_jobs_2d(lat, rng, nj.get("env", 0), stats)
             if nj.get("grid", 0):
                 grid_jobs_2d(lat, rng, stats)
@@ -1276,6 +1398,9 @@ VIA1D = ["dm", "zipup", "direct", "zipup-first", "fit", "src"]
 def replay_sweep_case(lat, rng, c):
     mode = {"late": "mps", "early": "mps", "via1d": rng.choice(VIA1D), "proj": "projector2d", "fullbond": "full-bond"}[c["mode"]]
     cfg = {"mode": mode, "model_mode": c["mode"], "sequence": list(c["seq"]), "closed": c["msep"] == 0, "task": c["task"], "ly": c["ly"]}
+    if c["task"] != "around":
+        cfg.pop("sequence")
+        cfg["seq"] = list(c["seq"])
     kw = {"mode": mode}
     if c["mode"] == "early":
         kw["compress_late"] = False
@@ -1298,7 +1423,8 @@ def replay_sweep_case(lat, rng, c):
         run_envs(lat, "replay:compute_environments", cfg, need, call, "line", model=model)
         return
     if c["task"] == "around":
-        kw["around"] = [tuple(c["target"])]
+        tg = c["target"]
+        kw["around"] = [(tg[0], tg[2]), (tg[1], tg[3])]
         cfg["around"] = kw["around"]
     if c["msep"] == 0:
         kw.update(max_separation=0, max_unfinished=0)
